@@ -119,6 +119,7 @@ func (e *envelopeEncryption) intermediateKeyFromEKR(sk accessorRevokable, ekr *E
 		if err != nil {
 			return nil, err
 		}
+		verifHook("ikfromekr.reresolved_sk", skLoaded)
 
 		sk = skLoaded
 	}
